@@ -147,3 +147,5 @@ def run(ctx):
     from rules.c15 import pack_rule
     pack_rule(ctx, crate)
     ctx.not_decided("that the thresholds are geometrically right (a cell under the inner threshold lies inside the cone); 'about one cell size' tightness; fixpoint of pack")
+    from rules import cancellation
+    cancellation.check(ctx, ctx.crate("rel"), ['nested::Layer::cone_coverage_approx', 'nested::Layer::cone_coverage_approx_custom'], floor=63)
